@@ -10,23 +10,23 @@ import (
 
 // POp is one concrete operation of a parser history.
 type POp struct {
-	Op    string        `json:"op"`
-	Data  Bytes         `json:"data,omitempty"`
-	Nil   bool          `json:"nil,omitempty"`   // reset: Reset(nil)
-	Cap   int           `json:"cap,omitempty"`   // reset: spare capacity of the slice handed over
-	Fill  byte          `json:"fill,omitempty"`  // reset: content of the spare capacity (not part of the data)
-	Empty bool          `json:"empty,omitempty"` // write: when Data is empty, hand over an empty non-nil slice instead of nil
-	Flags int           `json:"flags,omitempty"` // parse
+	Op    string `json:"op"`
+	Data  Bytes  `json:"data,omitempty"`
+	Nil   bool   `json:"nil,omitempty"`   // reset: Reset(nil)
+	Cap   int    `json:"cap,omitempty"`   // reset: spare capacity of the slice handed over
+	Fill  byte   `json:"fill,omitempty"`  // reset: content of the spare capacity (not part of the data)
+	Empty bool   `json:"empty,omitempty"` // write: when Data is empty, hand over an empty non-nil slice instead of nil
+	Flags int    `json:"flags,omitempty"` // parse
 	// Reuse (reset): the caller refills the array it handed to the previous
 	// Reset(data) with the new data and hands it over again (if it is large
 	// enough; else a new slice as always).
 	Reuse bool `json:"reuse,omitempty"`
 	// Cfg (reinit, bare ParserBuffer only): Init is called again on the used
 	// value with this configuration, as on a buffer taken from a pool.
-	Cfg *PCfg `json:"cfg,omitempty"`
-	Off   int64         `json:"off,omitempty"`   // readat/byteat: absolute offset
-	Len   int           `json:"len,omitempty"`   // readat: len(p)
-	R     *ReaderScript `json:"r,omitempty"`     // readfrom
+	Cfg *PCfg         `json:"cfg,omitempty"`
+	Off int64         `json:"off,omitempty"` // readat/byteat: absolute offset
+	Len int           `json:"len,omitempty"` // readat: len(p)
+	R   *ReaderScript `json:"r,omitempty"`   // readfrom
 }
 
 // ParserCase is a parser history as plain data: configuration plus concrete
